@@ -4,7 +4,7 @@ use crate::choices::Lane;
 use crate::gen::{GenCfg, GenReader, GenStats};
 use crate::trace::TraceBits;
 use crate::tree::{Tree, TreeWriter};
-use crate::treeread::{TreeReadCfg, TreeReadError, TreeReader};
+use crate::treeread::{TreeReadCfg, TreeReadError, TreeReadStats, TreeReader};
 use asn1rs::prelude::*;
 use asn1rs::protocol::per::Error as PerError;
 use asn1rs::protocol::protobuf::Error as ProtoError;
@@ -24,6 +24,8 @@ pub const F_DER: u32 = 4;
 pub const F_SENTINEL: u32 = 8;
 pub const F_ZEROBIT: u32 = 16;
 pub const F_CHAIN: u32 = 32;
+/// the type has a list directly inside a list (protobuf read-back never terminates: D11)
+pub const F_NESTED_LIST: u32 = 64;
 
 pub struct TypeOps {
     pub name: &'static str,
@@ -36,7 +38,7 @@ pub struct TypeOps {
     pub tree: fn(&Val) -> Tree,
     pub eq: fn(&Val, &Val) -> bool,
     pub debug: fn(&Val) -> String,
-    pub from_tree: for<'a> fn(&Tree, Lane<'a>, TreeReadCfg) -> Result<Val, TreeReadError>,
+    pub from_tree: for<'a> fn(&Tree, Lane<'a>, TreeReadCfg) -> Result<(Val, TreeReadStats), TreeReadError>,
     pub uper_write: fn(&Val, &mut UperWriter) -> Result<(), PerError>,
     pub uper_read: for<'a, 'b> fn(&'b mut UperReader<Bits<'a>>) -> Result<Val, PerError>,
     pub uper_read_traced: for<'a, 'b> fn(&'b mut UperReader<TraceBits<'a>>) -> Result<Val, PerError>,
@@ -64,6 +66,7 @@ where
             "der" => bits |= F_DER,
             "sentinel" => bits |= F_SENTINEL,
             "zerobit" => bits |= F_ZEROBIT,
+            "nestedlist" => bits |= F_NESTED_LIST,
             other => {
                 if let Some(rest) = other.strip_prefix("chain=") {
                     let mut it = rest.split(':');
@@ -90,7 +93,7 @@ where
         tree: |v| TreeWriter::tree_of(down::<T>(v)),
         eq: |a, b| down::<T>(a) == down::<T>(b),
         debug: |v| format!("{:?}", down::<T>(v)),
-        from_tree: |t, lane, cfg| TreeReader::build::<T>(t, lane, cfg).map(|v| Box::new(v) as Val),
+        from_tree: |t, lane, cfg| TreeReader::build_with_stats::<T>(t, lane, cfg).map(|(v, s)| (Box::new(v) as Val, s)),
         uper_write: |v, w| w.write(down::<T>(v)),
         uper_read: |r| r.read::<T>().map(|v| Box::new(v) as Val),
         uper_read_traced: |r| r.read::<T>().map(|v| Box::new(v) as Val),
@@ -112,15 +115,17 @@ pub fn zoo() -> &'static Zoo {
         let mut types = Vec::new();
         register(&mut types);
         // descriptor-level types for DER (the only kinds rw/der.rs implements besides ENUMERATED)
-        types.push(ops::<prim::PBool>("prim.PBool", "-", &["der", "proto"]));
-        types.push(ops::<prim::PInt<u8>>("prim.PIntU8", "-", &["der", "proto"]));
-        types.push(ops::<prim::PInt<i8>>("prim.PIntS8", "-", &["der", "proto"]));
-        types.push(ops::<prim::PInt<u16>>("prim.PIntU16", "-", &["der", "proto"]));
-        types.push(ops::<prim::PInt<i16>>("prim.PIntS16", "-", &["der", "proto"]));
-        types.push(ops::<prim::PInt<u32>>("prim.PIntU32", "-", &["der", "proto"]));
-        types.push(ops::<prim::PInt<i32>>("prim.PIntS32", "-", &["der", "proto"]));
-        types.push(ops::<prim::PInt<u64>>("prim.PIntU64", "-", &["der", "proto"]));
-        types.push(ops::<prim::PInt<i64>>("prim.PIntS64", "-", &["der", "proto"]));
+        types.push(ops::<prim::PBool>("prim.PBool", "-", &["der"]));
+        types.push(ops::<prim::PInt<u8>>("prim.PIntU8", "-", &["der"]));
+        types.push(ops::<prim::PInt<i8>>("prim.PIntS8", "-", &["der"]));
+        types.push(ops::<prim::PInt<u16>>("prim.PIntU16", "-", &["der"]));
+        types.push(ops::<prim::PInt<i16>>("prim.PIntS16", "-", &["der"]));
+        types.push(ops::<prim::PInt<u32>>("prim.PIntU32", "-", &["der"]));
+        types.push(ops::<prim::PInt<i32>>("prim.PIntS32", "-", &["der"]));
+        types.push(ops::<prim::PInt<u64>>("prim.PIntU64", "-", &["der"]));
+        types.push(ops::<prim::PInt<i64>>("prim.PIntS64", "-", &["der"]));
+        // everything added later is appended (see zoo/ORDER)
+        register_more(&mut types);
         Zoo { types }
     })
 }
